@@ -159,6 +159,7 @@ def run(ctx: RuleContext, p: Program) -> None:
     ctx.try_rule(storeforms.rule_pos_form, ts, 'POS-FORM')
     from . import tsseq, possem
     ctx.try_rule(possem.rule_pos_sem, ts, 'POS-SEM', 4 if ctx.tier == 'quick' else 6)
+    ctx.try_rule(possem.rule_hist_pos, ts, 'POS-HIST')
     ctx.try_rule(tsseq.rule_ts_seq, ts, 'TS-SEQ', 4 if ctx.tier == 'quick' else 6, ['sizes', 'handles'])
     ctx.not_decided += ['incremental line/column arithmetic inside TokenStore.update', 'get_position summation',
                         'equality of reported and recomputed positions over histories']
